@@ -3172,6 +3172,19 @@ EbErrorType svt_svt_enc_init_parameter(
     config_ptr->enable_hbd_mode_decision = DEFAULT;
     config_ptr->palette_level = DEFAULT;
     config_ptr->enable_manual_pred_struct = EB_FALSE;
+    // fields that have no other default: give each a defined value whatever the caller's memory held
+    config_ptr->manual_pred_struct_entry_num = 0;
+    memset(config_ptr->pred_struct, 0, sizeof(config_ptr->pred_struct));
+    config_ptr->render_width = 0;
+    config_ptr->render_height = 0;
+    config_ptr->is_16bit_pipeline = EB_FALSE;
+    config_ptr->rc_twopass_stats_in.buf = NULL;
+    config_ptr->rc_twopass_stats_in.sz = 0;
+    config_ptr->rc_firstpass_stats_out = EB_FALSE;
+    config_ptr->enable_qp_scaling_flag = 0;
+    config_ptr->enable_denoise_flag = EB_FALSE;
+    config_ptr->in_loop_me_flag = EB_FALSE;
+    config_ptr->vbv_bufsize = 0;
     config_ptr->encoder_color_format = EB_YUV420;
     config_ptr->mrp_level = DEFAULT;
 
